@@ -165,6 +165,41 @@ func checkC15(c *Ctx) {
 			msg = funcKey(fn) + ": transcript state is written at " + pos + " on a path that ends in the error return at " + p.Pos(instrPos(badRet.in))
 		}
 		c.Ob("C15.L11", pkg, funcKey(fn), "state-unchanged-on-error", pos, ok, msg)
+		// a challenge that is already computed is read, not recomputed: an accepting return that no
+		// hash Sum precedes (the cached read) is preceded by no state write either — the transcript
+		// after re-reading an old challenge is the transcript before
+		if fn == cc {
+			var sums []ivInstr
+			for _, x := range v.Instrs() {
+				if call, isCall := x.in.(*ssa.Call); isCall && call.Call.IsInvoke() && call.Call.Method.Name() == "Sum" {
+					sums = append(sums, x)
+				}
+			}
+			okC := true
+			posC := p.Pos(fn.Pos())
+			for _, r := range v.rootReturns() {
+				ret := r.in.(*ssa.Return)
+				if ret.Block().Comment == "recover" || !mayBeNilErr(retValue(ret, idx), ret.Block(), 0) {
+					continue
+				}
+				computed := false
+				for _, sm := range sums {
+					if v.MayPrecede(sm, r) {
+						computed = true
+					}
+				}
+				if computed {
+					continue
+				}
+				for _, w := range writes {
+					if v.MayPrecede(w, r) {
+						okC = false
+						posC = p.Pos(instrPos(w.in))
+					}
+				}
+			}
+			c.Ob("C15.L11", pkg, funcKey(fn), "state-unchanged-on-cached-read", posC, okC && len(sums) > 0, funcKey(fn)+": transcript state is written at "+posC+" on a path that returns an already computed challenge without recomputing it: re-reading a challenge changes what later challenges see")
+		}
 		// the state transition must happen on success of the computing path
 		if fn == cc {
 			c.Ob("C15.L11", pkg, funcKey(fn), "state-written-on-success", p.Pos(fn.Pos()), len(writes) >= 2,
